@@ -50,7 +50,7 @@ class World(object):
         self.path = os.path.join(SCRATCH, "%d" % os.getpid(), "%s%d" % (tag, World._serial))
         if os.path.exists(self.path):
             shutil.rmtree(self.path)
-        os.makedirs(os.path.join(self.path, "in"))
+        os.makedirs(os.path.join(self.path, "in"), exist_ok=True)
         os.makedirs(os.path.join(self.path, "tmp"))
         self.nodes = []
         self.stats = {"nodes": 0, "crashes": 0, "points": 0, "ops": 0, "kinds": {}, "fired": {}}
@@ -94,6 +94,10 @@ class World(object):
             except Exception:
                 pass
         shutil.rmtree(self.path, ignore_errors=True)
+        try:
+            os.rmdir(os.path.dirname(self.path))  # this process's directory, when no other world of it is alive
+        except OSError:
+            pass
 
     def __enter__(self):
         return self
